@@ -1492,7 +1492,8 @@ static void c12_case(struct vh_rng *r)
         vh_count_dyn("c12.pipe.%s", nm);
     }
     c12_qsrc = NULL; c12_has_q = false; c12_cb_depth = 0;
-    if (c12_n < C12_MAXP + 1 && vh_chance(R, 1, 3)) {
+    int burst_mode = (int)vh_arg_int("burst", 1);   /* 0 never, 1 sometimes, 2 every case ends with a queue and bursts often */
+    if (c12_n < C12_MAXP + 1 && (burst_mode == 2 || vh_chance(R, 1, 3))) {
         struct upipe_mgr *qm = upipe_qsrc_mgr_alloc();
         c12_qsrc = upipe_qsrc_alloc(qm, lab_probe_new("qsrc", &c12_qsrc_id), 1 + vh_below(R, 4));
         upipe_mgr_release(qm);
@@ -1568,7 +1569,7 @@ static void c12_case(struct vh_rng *r)
                 upipe_set_output(target, o == -2 ? c12_pipes[k + 1] : o == -1 ? NULL : c12_sinks[o]);
             c12_out[k] = o;
             VH_COUNT("c12.replumb");
-        } else if (c < 72 && c12_has_q) {
+        } else if (c < (burst_mode == 2 ? 80 : 72) && c12_has_q && burst_mode) {
             /* a burst of registrations and withdrawals while the loops do not run:
              * more out-of-band messages than the queue can hold (255) */
             int k = vh_below(R, C12_MAXR);
